@@ -65,9 +65,10 @@ pub(crate) trait PendingRequest: Send {
             .and_then(|s| s.strip_prefix("Basic "))
             .map(|s| Some(authentication::Source::ProxyBasic(s.into())))
             .ok_or_else(|| {
+                // do not put the request in the message: it carries the header value
                 io::Error::new(
                     ErrorKind::Other,
-                    format!("Unexpected authorization header: {:?}", self.request()),
+                    "Unexpected authorization header: not Basic credentials",
                 )
             })
     }
